@@ -51,7 +51,7 @@ class Ctx:
 
     def violation(self, rule: str, file: str, function: str, construct: str, loc: str, message: str, **detail: Any) -> None:
         key = f"{rule}|{file}|{function}|{construct}"
-        if not in_scope(self.prop, rule, function, construct):
+        if not in_scope(self.prop, rule, function, construct, file):
             # a genuine rule failure, but not a necessary condition of THIS property (see scope.py): reported by the properties it belongs to
             if not any(o["key"] == key for o in self.out_of_scope):
                 self.out_of_scope.append({"key": key, "loc": loc, "message": message})
